@@ -7,7 +7,7 @@
    Witness at the executable (Q) instance; the oracles are constants except the waist position, which is -wavelength
    (any map that depends on the wavelength will do), so every "collinear" contract holds trivially. *)
 From Coq Require Import String List Bool ZArith QArith.
-From SpdVerif Require Import Base.NumOps Spec.ConfigSpec Gen.ConfigTables Gen.ConfigSites Model.ConfigTypes Model.Config Model.NumInst.
+From SpdVerif Require Import Base.CfgNumOps Spec.ConfigSpec Gen.ConfigTables Gen.ConfigSites Model.ConfigTypes Model.Config Model.NumInst.
 Import ListNotations.
 Local Open Scope Q_scope.
 
